@@ -69,6 +69,23 @@ def w_hier(case):
     exp2 = float(np.real(hier.ref_score(case, vec2)))
     got2 = hl(vec2.copy())
     ntr += 1
+    # the caller moves entries of one array object in place between evaluations
+    # (as a hand-written optimiser or finite-difference loop does)
+    v_obj = vec.copy()
+    hl(v_obj)
+    moved = True
+    for k_ in (len(vec) - 1, nb, 0):
+        v_obj[k_] *= 1.003
+        e_m = float(np.real(hier.ref_score(case, v_obj.copy())))
+        g_m = hl(v_obj)
+        ntr += 1
+        if not tol.close(g_m, e_m):
+            viol.append({'sub': 'inplace', 'message': 'after entry %d of the SAME '
+                         'array object was changed in place the hierarchical '
+                         'log-likelihood is not the value at the new vector (%s, '
+                         'n_ids=%d)' % (k_, lab, n_ids), 'expected': e_m,
+                         'observed': g_m, 'behaviour': 'score'})
+            break
     if case.get('int_vec'):
         # whole-number vector handed over as an integer array, a list of Python
         # ints and a float array: one and the same value
@@ -91,6 +108,11 @@ def w_hier(case):
         viol.append({'sub': 'score2', 'message': 'hierarchical log-likelihood '
                      'wrong at the second point (%s, n_ids=%d)' % (lab, n_ids),
                      'expected': exp2, 'observed': got2, 'behaviour': 'score'})
+    if case.get('value_only'):
+        # (one sub-model object listed several times carries one set of dimension
+        # names: only the value is defined)
+        return {'transitions': ntr, 'outcome': tol.rnd([got, got2]),
+                'violations': viol}
     # names and ids
     e_names, e_ids = hier.ref_names(case, include_ids=True)
     g_names = hl.get_parameter_names(include_ids=True)
@@ -134,7 +156,7 @@ def w_hier(case):
 
 
 WORKERS = {'compositions': w_hier, 'reduced': w_hier, 'ids': w_hier,
-           'int_vectors': w_hier}
+           'int_vectors': w_hier, 'nested': w_hier}
 
 
 def build(tier, seed):
@@ -174,6 +196,32 @@ def build(tier, seed):
                         c = hier.make_case(spec, n_ids, seed)
                         c['early'] = True
                         red.append(c)
+    # nested compositions: a composed model inside a composed model, first / last
+    nest = []
+    inner_kinds = ['G', 'Gnc', 'LNnc', 'P', 'H', 'Cov(G)']
+    for a, b in itertools.product(inner_kinds, repeat=2):
+        for outer in ('LN', 'Gnc'):
+            inner = rp.Comp([popbuild.elem(a, 1), popbuild.elem(b, 1)])
+            for spec in (rp.Comp([popbuild.elem(outer, 1), inner]),
+                         rp.Comp([inner, popbuild.elem(outer, 1)])):
+                for n_ids in (1, 2):
+                    c = hier.make_case(spec, n_ids, seed)
+                    # (default dimension names of nested compositions are numbered
+                    # per composition level, which no document fixes: value and
+                    # counts here, distinctness of names in C17)
+                    c['value_only'] = True
+                    nest.append(c)
+    # the same sub-model object listed several times (value only)
+    for parts in ([rp.G(1), rp.G(1), rp.P(1)], [rp.LN(1, False), rp.LN(1, False),
+                                                rp.G(1)],
+                  [rp.LN(1), rp.P(1), rp.LN(1)],
+                  [rp.Cov(rp.G(1), 1), rp.Cov(rp.G(1), 1), rp.LN(1)]):
+        spec = rp.Comp(parts)
+        spec['shared'] = True
+        for n_ids in (1, 2, 3):
+            c = hier.make_case(spec, n_ids, seed)
+            c['value_only'] = True
+            nest.append(c)
     # whole-number parameter vectors in integer / list / float form
     intc = []
     for spec in hier.structures(3, ['G', 'LNnc', 'P', 'Cov(G)', 'Cov(LNnc)']):
@@ -194,6 +242,9 @@ def build(tier, seed):
                  'ReducedPopulationModel with every subset of <=2 fixed parameters, '
                  'wrapped at the final number of individuals or for one individual'),
             Part('ids', idc, w_hier, 'integer / float / string individual IDs'),
+            Part('nested', nest, w_hier,
+                 'composed models inside composed models (every pair of inner '
+                 'sub-models, first / last); one sub-model object listed twice'),
             Part('int_vectors', intc, w_hier,
                  'whole-number parameter vectors as integer array / list / floats'),
         ],
